@@ -24,14 +24,24 @@ from props import rt
 PID = "C20"
 LEVEL = "proof"
 MODULE = "Sigc.Props.C20"
-REQUIRED = ["Sigc.C20.copy_ok", "Sigc.C20.move_ok", "Sigc.C20.emitLoop_calls_only_typed_reps"]
+REQUIRED = ["Sigc.C20.copy_ok", "Sigc.C20.move_ok", "Sigc.C20.emitLoop_calls_only_typed_reps",
+            # the lift to all histories (Sigc/Lemmas/InvCall.lean through the schema of Sigc/Lemmas/InvSchema.lean)
+            "Sigc.C20.callHasFn_reachable", "Sigc.C20.callHasFn_runTop_from", "Sigc.C20.callHasFn_execLine",
+            "Sigc.C20.callHasFn_execOp", "Sigc.C20.callHasFn_emitImpl", "Sigc.C20.callHasFn_invokeFun",
+            "Sigc.C20.callHasFn_every_function", "Sigc.C20.callHasFn_emitLoop", "Sigc.C20.callHasFn_teardown",
+            "Sigc.C20.reachable_callable_has_functor", "Sigc.C20.emitLoop_finds_functor",
+            "Sigc.C20.deref_finds_functor", "Sigc.C20.callS_finds_functor", "Sigc.C20.skip_iff_empty",
+            "Sigc.C20.emitLoop_skips_empty", "Sigc.C20.emitLoop_enters_invokeFun",
+            "Sigc.C20.deref_enters_invokeFun", "Sigc.C20.callS_enters_invokeFun",
+            "Sigc.C20.nest_inner_none_iff_empty", "Sigc.C20.invokeFun_nest"]
 TRUSTED = rt.TRUSTED_RT + ["g++ 12.2 and clang++ 14 with libstdc++ 12 as the supported compiler matrix; valgrind 3.19; "
                            "clang's -fsanitize=function as oracle for calls through a mismatched function type"]
 ASSUMPTIONS = rt.ASSUMPTIONS_RT + [
     "PARTIAL: what an optimiser does with undefined behaviour cannot be a theorem; the theorems show the modelled erased call "
     "path meets its preconditions, the matrix shows these compilers agree with the model on the sampled programs"]
-PARTIAL = ["the all-history invariant 'call = true -> fn.isSome' for every reachable state is proved per slot-value operation "
-           "(Sigc/Props/C20.lean); its lift to all histories is part of the invariant work in Sigc/Lemmas/Inv*.lean"]
+# (the all-history invariant 'call = true -> fn.isSome' is proved for every reachable state: Sigc.C20.callHasFn_reachable;
+#  what stays partial is the optimiser part, see ASSUMPTIONS)
+PARTIAL = []
 KNOWN_IDS = ()
 EXPLANATION = "partial: precondition theorems for the type-erased call path + configuration matrix differential"
 N_QUICK = 300
